@@ -4,13 +4,14 @@ PROP = dict(
     title="Arena allocation is memory-safe for values of any size",
     lean_module="AbraProofs.Properties.C38",
     required_theorems=["C38_alloc_in_bounds", "C38_alloc_aligned", "C38_alloc_disjoint", "C38_alloc_disjoint_abs",
-                       "C38_alloc_stable", "C38_alloc_stable_buf", "C38_log_matches_requests", "C38_padding_minimal"],
+                       "C38_alloc_stable", "C38_alloc_stable_buf", "C38_log_matches_requests", "C38_padding_minimal",
+                       "C38_d14_arithmetic_witness"],
     harness_bin="c38",
     mismatch_is_violation=False,
     rule="allocation histories on the real utils::arena::Arena: 4 regression histories (the D14 witnesses), then "
          "(quick) 600 / (thorough) 20000 seeded histories of 1-60 allocations from 24 value kinds (u8..u128, (), "
          "[u8; 0/1/3/7/13/64/100/1000/5000/20000], #[repr(align(16/32/64))] structs incl. a zero-sized one, a repr(C) "
-         "struct) over 17 initial capacities (capacity 0 through Arena::with_capacity(0), Arena::new() and Arena::default() in turn) and 5 profiles (small, aligned, big, mostly-small, uniform); the process "
+         "struct) over 16 distinct initial capacities (capacity 0 through Arena::with_capacity(0), Arena::new() and Arena::default() in turn) and 5 profiles (small, aligned, big, mostly-small, uniform); the process "
          "runs under a global allocator that places alignment-1 blocks at every residue mod 64 in turn, so buffer base "
          "addresses are arbitrary as in the theorems; one model request per history carrying (size, align, base address "
          "of the buffer the real allocator returned) per allocation; compared observable: (buffer index, start offset) "
@@ -19,7 +20,7 @@ PROP = dict(
     nontrivial=lambda req, imp: not imp.split(" |")[0].split()[-1].startswith("0:") if imp.split(" |")[0].split() else False,
     trusted_base=COMMON_TB + [
         "hook Arena::verif_layout (/repo/utils/src/arena.rs, cfg abra_verif): reads base/len of the buffers and the offset",
-        "Rust's global allocator contract (simultaneously live boxes are disjoint; a Box<[MaybeUninit<u8>]> of length n owns n bytes at its address) — hypothesis BufsDisjoint of C38_alloc_disjoint_abs, checked on the real addresses by the harness",
+        "Rust's global allocator contract (simultaneously live boxes are disjoint; a Box<[MaybeUninit<u8>]> of length n owns n bytes at its address) — hypothesis BufsDisjoint of C38_alloc_disjoint_abs; the harness does not check this hypothesis, it checks the conclusion (the real address ranges of all placements are pairwise disjoint)",
         "size_of/align_of report the layout rustc uses; usize arithmetic does not overflow (sizes are far below 2^63)",
     ],
     assumptions=[
